@@ -417,7 +417,7 @@ class StringDataEncoding(DataEncoding):
                 init_kwargs["dynamic_length_reference"] = parameter_instance_ref_element.attrib['parameterRef']
 
                 use_calibrated_value = (
-                        parameter_instance_ref_element.attrib.get('useCalibratedValue', "true").lower() == "true"
+                        parameter_instance_ref_element.attrib.get('useCalibratedValue', "true").lower() in ("true", "1")
                 )
                 init_kwargs["use_calibrated_value"] = use_calibrated_value
 
@@ -973,7 +973,7 @@ class BinaryDataEncoding(DataEncoding):
             param_inst_ref = dynamic_value_element.find('ParameterInstanceRef')
             referenced_parameter = param_inst_ref.attrib['parameterRef']
             # useCalibratedValue default value is "true"
-            use_calibrated_value = param_inst_ref.attrib.get('useCalibratedValue', "true").lower() == "true"
+            use_calibrated_value = param_inst_ref.attrib.get('useCalibratedValue', "true").lower() in ("true", "1")
             linear_adjuster = cls._get_linear_adjuster(dynamic_value_element)
             return cls(size_reference_parameter=referenced_parameter,
                        use_calibrated_value=use_calibrated_value, linear_adjuster=linear_adjuster)
